@@ -3,6 +3,8 @@
 //! the code did as ndjson for TLC to validate.
 mod absx;
 mod astp;
+mod expand;
+mod iters;
 mod rows;
 mod tok;
 mod util;
@@ -18,6 +20,8 @@ fn main() {
     let r = match args[1].as_str() {
         "rows" => rows::cmd_rows(&opts),
         "print" => rows::cmd_print(&opts),
+        "expand" => expand::cmd_expand(&opts),
+        "iters" => iters::cmd_iters(&opts),
         c => {
             eprintln!("unknown command {}", c);
             std::process::exit(2)
